@@ -91,10 +91,11 @@ def builtin_json(case, note):
             if k not in entry or entry[k] != val:
                 raise Violation('C04.json-value', '%s: JSON payload key %r -> %r is shown as %r'
                                 % (name, k, val, entry.get(k, '<absent>')), sig='C04.json-value')
-        extra = set(entry) - set(v) - {'Section Version', 'Sub-section type', 'Created by'}
-        if extra:
-            raise Violation('C04.json-value', '%s: keys %r are shown but not in the payload' % (name, sorted(extra)),
-                            sig='C04.json-value.extra')
+        # keys beyond the payload's own (additional information about the section) are tolerated, but the
+        # section must not fall back to a dump of a payload it could render
+        if 'Data' in entry and 'Data' not in v:
+            raise Violation('C04.json-value', '%s: a JSON object payload is shown under Data: %r'
+                            % (name, str(entry['Data'])[:200]), sig='C04.json-value.extra')
     else:
         if 'Data' not in entry or entry['Data'] != v or type(entry['Data']) != type(v):
             raise Violation('C04.json-value', '%s: JSON payload %r is shown as %r'
